@@ -94,6 +94,18 @@ type withMarshaler struct {
 	Sub  marshalerSub `mapstructure:"sub"`
 }
 
+type markerFirst struct {
+	A configopaque.String            `mapstructure:"a"`
+	B configopaque.String            `mapstructure:"b"`
+	C map[string]configopaque.String `mapstructure:"c"`
+	D []configopaque.String          `mapstructure:"d"`
+}
+
+type withRemain struct {
+	Name string         `mapstructure:"name"`
+	Rest map[string]any `mapstructure:",remain"`
+}
+
 type badEntry struct {
 	Limit int `mapstructure:"limit"`
 }
@@ -295,6 +307,10 @@ func encoders(s configopaque.String, in inner, kd keyed, emit func(rendering)) {
 	}{{"struct", in}, {"structptr", &in}, {"mapkey", kd},
 		{"mapkey-two-entries", keyed{K: map[configopaque.String]string{s: "v", s + "-2": "w"}}},
 		{"struct-with-marshaler", &withMarshaler{Name: "n", Sub: marshalerSub{Token: s, Headers: in.M, List: in.L}}},
+		// a field that holds the marker itself (pasted from redacted output) in front of the real secrets
+		{"struct-marker-then-secret", &markerFirst{A: configopaque.String(marker), B: s, C: map[string]configopaque.String{"h": s}, D: []configopaque.String{configopaque.String(marker), s}}},
+		// left-over keys kept in a `,remain` map, some of them wrapped as opaque values by the component
+		{"struct-with-remain-map", &withRemain{Name: "n", Rest: map[string]any{"token": s, "nested": map[string]any{"k": s}, "list": []any{s}, "sub": in}}},
 		{"http.ClientConfig", &confighttp.ClientConfig{Endpoint: "http://x", Headers: in.M}},
 		{"http.ServerConfig", &confighttp.ServerConfig{Endpoint: "x:1", ResponseHeaders: in.M}},
 		{"grpc.ClientConfig", &configgrpc.ClientConfig{Endpoint: "x:1", Headers: in.M}}} {
@@ -302,6 +318,22 @@ func encoders(s configopaque.String, in inner, kd keyed, emit func(rendering)) {
 		err := cm.Marshal(c.val)
 		sm := cm.ToStringMap()
 		enc("confmap", "Marshal+ToStringMap %v", c.name, fmt.Sprint(sm), err, c.name != "mapkey" && c.name != "mapkey-two-entries")
+		if (c.name == "struct-marker-then-secret" || c.name == "struct-with-remain-map") && err == nil {
+			var back map[string]any
+			uerr := cm.Unmarshal(&back)
+			enc("confmap", "Marshal, then Unmarshal into map[string]any %#v", c.name, fmt.Sprintf("%#v", back), uerr, false)
+			// and into plain strings, as code that reads the effective configuration does
+			var plain struct {
+				B      string            `mapstructure:"b"`
+				C      map[string]string `mapstructure:"c"`
+				D      []string          `mapstructure:"d"`
+				Token  string            `mapstructure:"token"`
+				Nested map[string]string `mapstructure:"nested"`
+				List   []string          `mapstructure:"list"`
+			}
+			perr := cm.Unmarshal(&plain, confmap.WithIgnoreUnused())
+			enc("confmap", "Marshal, then Unmarshal into plain strings", c.name, fmt.Sprintf("%+v", plain), perr, false)
+		}
 		if c.name == "struct-with-marshaler" && err == nil {
 			// what the marshalled configuration gives back to code that reads it as plain strings
 			var back struct {
